@@ -75,9 +75,9 @@ var c30PhaseName = [c30NPhases]string{"sdp-fresh", "sdp-live", "candidates", "pa
 func c30PhaseSize(ph int) (n, chunk int) {
 	switch ph {
 	case c30PhFresh:
-		return kit.N(16000, 200000), 400
+		return kit.N(10000, 200000), 500
 	case c30PhLive:
-		return kit.N(640, 8000), 8 // x ~6.5 descriptions applied per case
+		return kit.N(480, 8000), 8 // x ~6.5 descriptions applied per case
 	case c30PhCand:
 		return kit.N(400, 4000), 16 // x 50 candidates per case
 	case c30PhPacket:
@@ -296,6 +296,7 @@ type c30Parent struct {
 	samples map[int]int
 	confirm map[string]int
 	spawned int
+	phaseSec [c30NPhases]float64
 	crashes int
 	timeout time.Duration
 }
@@ -336,6 +337,16 @@ func TestVerifC30(t *testing.T) {
 	p := &c30Parent{
 		run: run, dir: dir, exe: exe, flight: map[string]c30Chunk{}, samples: map[int]int{}, confirm: map[string]int{},
 		timeout: time.Duration(kit.N(240, 1500)) * time.Second,
+	}
+
+	// the pion-produced seed descriptions are built once (in a child) and shared by all children
+	{
+		cmd := exec.Command(exe, "-test.run", "^TestVerifC30$", "-test.timeout", "0") //nolint:gosec
+		cmd.Env = append(os.Environ(), "VERIF_C30_CHILD=seeds", "VERIF_C30_SEEDS="+filepath.Join(dir, "seeds.json"))
+		if out, err := cmd.CombinedOutput(); err != nil {
+			c30Note("seed builder failed: %v: %s", err, c30Tail(string(out), 800))
+			run.Inconclusive("seed-builder-failed")
+		}
 	}
 
 	var chunks []c30Chunk
@@ -399,6 +410,11 @@ func TestVerifC30(t *testing.T) {
 	run.Set("children_spawned", p.spawned)
 	run.Set("child_crashes", p.crashes)
 	run.Set("workers", workers)
+	ps := map[string]string{}
+	for ph, sec := range p.phaseSec {
+		ps[c30PhaseName[ph]] = fmt.Sprintf("%.0f", sec)
+	}
+	run.Set("child_seconds_by_phase", ps)
 	_ = os.Remove(c30CurrentPath())
 }
 
@@ -440,8 +456,8 @@ func (p *c30Parent) spawn(tag string, c c30Chunk) (recs []c30Rec, output string,
 	ctx, cancel := context.WithTimeout(context.Background(), p.timeout)
 	defer cancel()
 	cmd := exec.CommandContext(ctx, p.exe, "-test.run", "^TestVerifC30$", "-test.timeout", "0") //nolint:gosec
-	cmd.Env = append(os.Environ(), "VERIF_C30_CHILD="+c.String(), "VERIF_C30_OUT="+outPath, "VERIF_C30_CUR="+curPath,
-		"GOTRACEBACK=all")
+	cmd.Env = append(os.Environ(), "VERIF_C30_CHILD="+c.String(), "VERIF_C30_SEEDS="+filepath.Join(p.dir, "seeds.json"), "VERIF_C30_OUT="+outPath, "VERIF_C30_CUR="+curPath,
+		"GOTRACEBACK=all", "GOMAXPROCS=4", "GOGC=300")
 	var buf bytes.Buffer
 	cmd.Stdout, cmd.Stderr = &buf, &buf
 	cmd.WaitDelay = 5 * time.Second
@@ -450,9 +466,11 @@ func (p *c30Parent) spawn(tag string, c c30Chunk) (recs []c30Rec, output string,
 	p.flight[tag] = c
 	p.publishFlight()
 	p.mu.Unlock()
+	t0 := time.Now()
 	_ = cmd.Run()
 	timedOut = ctx.Err() != nil
 	p.mu.Lock()
+	p.phaseSec[c.Phase] += time.Since(t0).Seconds()
 	delete(p.flight, tag)
 	p.mu.Unlock()
 	output = buf.String()
